@@ -1201,7 +1201,10 @@ def _filled(elem):
     # `vec![elem; nodes]` or the iterator spellings of the same vector
     return OR(C('from_elem', elem, L('nodes')),
               M('collect', M('take', C('repeat', elem), L('nodes'))),
-              M('collect', C('repeat_n', elem, L('nodes'))))
+              M('collect', C('repeat_n', elem, L('nodes'))),
+              # parsed entries first, then the default up to the node count
+              M('collect', M('take', M('chain', ANY(), C('repeat', elem)), L('nodes'))),
+              M('take', M('chain', ANY(), C('repeat', elem)), L('nodes')))
 
 
 row('C14', HITOBJ, 'node-default:sound-type', _let('node_sound_types', _filled(L('sound_type'))))
@@ -1406,8 +1409,9 @@ def _hold_end(ctx, hfn):
         def v(n, anc):
             if n.get('k') == 'assign' and strip(n['l']).get('k') == 'local' and strip(n['l'])['name'] == nm:
                 vals.append(n['r'])
-            if n.get('k') in ('slet', 'let') and 'init' in n and nm in H.pat_bindings(n.get('pat', {})):
-                vals.append(n['init'])
+            if n.get('k') in ('slet', 'let') and 'init' in n and nm in H.pat_bindings(n.get('pat', {})) and \
+                    any(n is st_ for st_ in scope.get('stmts', [])):
+                vals.append(n['init'])      # (a `let` of the same name in a nested block is another variable)
         H.walk(scope, v)
     else:
         vals.append(end)
@@ -1422,7 +1426,32 @@ def _hold_end(ctx, hfn):
         return False, 'no value for the end of a hold note found', inits[0][1]
     START = L('start_time')
     clamp = lambda other: OR(M('max', START, other), M('max', other, START), C('max', START, other), C('max', other, START))
-    parsed = OR(L('new_end_time'), TRY(M('parse_num', ANY())))
+    parsed = OR(L('new_end_time'), TRY(M('parse_num', ANY())), TRY(C('ParseNumber>::parse', ANY())))
+
+    def unwrap_ok(l):
+        l0 = strip(l)
+        if isinstance(l0, dict) and l0.get('k') == 'call' and l0['f'].get('k') == 'path' and l0['f'].get('name') == 'Ok' and len(l0['args']) == 1:
+            return l0['args'][0]
+        return l
+    def expand(l, depth=0):
+        # `helper(..)?` with the helper inlined: the values its body can yield
+        l0 = strip(l)
+        if depth < 3 and isinstance(l0, dict) and l0.get('k') in ('block', 'match', 'if'):
+            try:
+                t_ = SE.SymEval(None, budget=3000).value(l0, {})
+            except SE.Stop:
+                return [l]
+            out_ = []
+            for _p, x_ in SE.leaves(t_):
+                if x_ is l0 or strip(x_) is l0:
+                    out_.append(x_)
+                else:
+                    out_.extend(expand(x_, depth + 1))
+            return out_
+        return [l]
+    leaves_ = [y for l in leaves_ for y in expand(l)]
+    leaves_ = [unwrap_ok(l) for l in leaves_ if not (isinstance(strip(l), dict) and strip(l).get('k') in ('returned', 'ret'))
+               and not (isinstance(strip(l), dict) and strip(l).get('k') == 'call' and strip(l)['f'].get('k') == 'path' and strip(l)['f'].get('name') == 'Err')]
     for l in leaves_:
         ctx.env = {}
         if not clamp(ANY()).m(ctx, l):
@@ -1434,7 +1463,19 @@ def _hold_end(ctx, hfn):
     return True, '', inits[0][1]
 
 
-row('C14', HITOBJ, 'hold-end>=start', _hold_end)
+def _hold_end_row(ctx, hfn):
+    r = _hold_end(ctx, hfn)
+    for dpt in (1, 2):
+        if r[0]:
+            break
+        vh = H.inlined_fn(ctx.facts, hfn, depth=dpt)
+        r2 = _hold_end(Ctx(ctx.facts, H.binding_inits(vh), vh), vh)
+        if r2[0]:
+            return r2
+    return r
+
+
+row('C14', HITOBJ, 'hold-end>=start', _hold_end_row)
 row('C14', HITOBJ, 'hold-duration',
     _struct_init('section::hit_objects::hold::HitObjectHold', 'duration', BIN('Sub', L('end_time'), L('start_time'))))
 
@@ -1448,7 +1489,18 @@ def _suffix_rejects_only_unparsable(ctx, hfn):
         e = strip(e)
         if isinstance(e, dict) and e.get('k') == 'mcall' and e.get('name') == 'into':
             e = strip(e['recv'])
-        return isinstance(e, dict) and e.get('k') == 'call' and e['f'].get('k') == 'path' and e['f'].get('name') == 'Err'
+        if not (isinstance(e, dict) and e.get('k') == 'call' and e['f'].get('k') == 'path' and e['f'].get('name') == 'Err'):
+            return False
+        # the missing second field is the one rejection the format has here (`ok_or(MissingInfo)?` spelled as a return)
+        pay = strip(e['args'][0]) if e.get('args') else None
+        if isinstance(pay, dict) and pay.get('k') == 'path' and pay.get('name') == 'MissingInfo':
+            return False
+        # an error value handed on (`Err(err) => return Err(err.into())`) is the number parser's own rejection
+        if isinstance(pay, dict) and pay.get('k') == 'mcall' and pay.get('name') == 'into' and strip(pay['recv']).get('k') == 'local':
+            return False
+        if isinstance(pay, dict) and pay.get('k') == 'local':
+            return False
+        return True
 
     def v(n, anc):
         if 'QuestionMark' in (n.get('exp') or ''):
@@ -2070,15 +2122,19 @@ def _hold_end_first_piece(ctx, hfn):
                 continue
             if e.get('k') == 'local':
                 its = unique_inits(ctx, e['name'])
+                if len(its) > 1:
+                    # a shadowing `let x = parse(x)?`: the binding that does not mention itself is the earlier one
+                    nm = e['name']
+                    its = [i for i in its if not any(y.get('k') == 'local' and y.get('name') == nm for y in _nodes(i))]
                 if len(its) == 1 and strip(its[0]) is not e:
                     e = strip(its[0])
                     continue
             break
         return e
-    for n, _a in find(ctx, hfn['body'], M('parse_num', ANY())):
+    for n, _a in find(ctx, hfn['body'], OR(M('parse_num', ANY()), C('ParseNumber>::parse', ANY()))):
         if 'Result<f64' not in (strip(n).get('ty') or ''):
             continue                    # (node sample sets are `:`-separated integers)
-        t = res(strip(n)['recv'])
+        t = res(strip(n)['recv'] if strip(n).get('k') == 'mcall' else strip(n)['args'][0])
         if isinstance(t, dict) and t.get('k') == 'mcall' and t.get('name') == 'next':
             q = res(t['recv'])
             if isinstance(q, dict) and q.get('k') == 'mcall' and q.get('name') in ('split', 'splitn') and q.get('args') and \
